@@ -110,7 +110,9 @@ pub fn materialise(g: &G, root: &Path) -> std::io::Result<()> {
                 }
             }
             if g.dangling == Some(i) {
-                p.push_str("\n[[dependencies]]\nuri = \"libcnb:acme/does-not-exist\"\n");
+                // an id that exists nowhere, or (odd nodes) the id of the shell buildpack next door, which is not a
+                // libcnb.rs/composite buildpack and therefore cannot be built by this tool either
+                p.push_str(if i % 2 == 0 { "\n[[dependencies]]\nuri = \"libcnb:acme/does-not-exist\"\n" } else { "\n[[dependencies]]\nuri = \"libcnb:acme/shell\"\n" });
             }
             p.push_str("\n[[dependencies]]\nuri = \"https://example.com/bp.cnb?x=libcnb:n1\"\n");
             std::fs::write(dir.join("package.toml"), p)?;
@@ -254,8 +256,14 @@ fn check_graph(scratch: &Path, g: &G, selections: &[Vec<usize>], tag: &str) -> G
             // "a dependency on an unknown buildpack is an error rather than being dropped": the error may surface when
             // the graph is built (as today) or when the order of a selection that reaches the dangling node is computed
             let all: Vec<_> = graph.node_weights().collect();
-            if get_dependencies(graph, &all).is_ok() {
-                res.fail = Some((Fail::new("C13:dangling-dependency-not-an-error", format!("node {d} depends on an unknown buildpack but both graph construction and the build order of all buildpacks succeeded")), g_json(g, &[])));
+            match get_dependencies(graph, &all) {
+                Err(_) => {}
+                // odd nodes name the shell buildpack next door: an implementation that knows it may keep it in the order — but
+                // the dependency must not silently disappear
+                Ok(order) if d % 2 == 1 && order.iter().any(|n| n.buildpack_id.as_str() == "acme/shell") => {}
+                Ok(_) => {
+                    res.fail = Some((Fail::new("C13:dangling-dependency-not-an-error", format!("node {d} depends on a buildpack that is not part of the graph, but both graph construction and the build order of all buildpacks succeeded without it")), g_json(g, &[])));
+                }
             }
         }
         (Err(_), Some(_)) => {
@@ -342,7 +350,7 @@ fn rand_graph_strategy() -> impl Strategy<Value = RandG> {
 }
 
 pub fn run(ctx: &Ctx) {
-    ctx.set_rule("exhaustive: every labelled DAG on n <= 4 (quick) / n <= 5 (thorough) nodes, materialised as a directory of composite / libcnb.rs buildpacks (ids with '/', decoy non-libcnb buildpacks, docker/path/https dependencies, two ids differing only in letter case, buildpacks nested below another crate buildpack's tests/fixtures directory) and read back through build_libcnb_buildpacks_dependency_graph, x every non-empty ordered selection of distinct roots plus selections with a repeated root, through get_dependencies; random DAGs on 6..12 nodes with duplicate dependency entries; graphs with one dangling libcnb: dependency. Oracle: validity predicate (output set = reflexive-transitive closure of the roots, no element twice, every dependency before its dependents; every generated buildpack is a node), dangling => an error when the graph is built or when the order over all buildpacks is computed. Non-trivial: a dependency path of length >= 2 below a selected root, or a node with in-degree >= 2 reachable from >= 2 selected roots; distinct = hash of (graph, selection).");
+    ctx.set_rule("exhaustive: every labelled DAG on n <= 4 (quick) / n <= 5 (thorough) nodes, materialised as a directory of composite / libcnb.rs buildpacks (ids with '/', decoy non-libcnb buildpacks, docker/path/https dependencies, two ids differing only in letter case, buildpacks nested below another crate buildpack's tests/fixtures directory) and read back through build_libcnb_buildpacks_dependency_graph, x every non-empty ordered selection of distinct roots plus selections with a repeated root, through get_dependencies; random DAGs on 6..12 nodes with duplicate dependency entries; graphs with one dangling libcnb: dependency (an id that exists nowhere, or the id of a non-libcnb buildpack found in the same walk). Oracle: validity predicate (output set = reflexive-transitive closure of the roots, no element twice, every dependency before its dependents; every generated buildpack is a node), dangling => an error when the graph is built or when the order over all buildpacks is computed. Non-trivial: a dependency path of length >= 2 below a selected root, or a node with in-degree >= 2 reachable from >= 2 selected roots; distinct = hash of (graph, selection).");
     ctx.assume("input graphs are acyclic (the property quantifies over acyclic sets)");
     ctx.set_exhaustive(true);
     ctx.extra("exhaustive_subspace", json!("all labelled DAGs up to the stated node count x all ordered root selections; random larger graphs are sampled"));
